@@ -114,3 +114,4 @@ for i in ("C03","C08","C12","C13","C15"):
 C["C03"]["level_claimed"]["text"] = C["C03"]["level_claimed"]["text"].replace("8 threads x 400 operations per round;", "8 threads x 400 operations per long round (two rounds in eight) and x 25 per short round, each thread ending with three add-then-list pairs; 1 600 rounds quick, 80 000 thorough;")
 C["C10"]["level_claimed"]["text"] += " Externally written texts come with their fields rotated / reversed."
 C["C19"]["level_claimed"]["text"] += " The queue is also rendered (Display / Debug) into fmt::Write and io::Write sinks that fail part-way; after every rendering the text and JSON forms taken next must decode to the queued orders."
+C["C11"]["level_claimed"]["text"] += " Prefixes contain read-only calls before the snapshot is taken, scenes contain orders of the kinds a match drops silently, and before anything is traded the restored level must hold exactly the orders resting on the original."
